@@ -70,6 +70,9 @@ def gen_params(rng):
     opts = {"reference": "FASTA", "tag": rng.choice(["PS", "HP"]), "only_snvs": rng.random() < 0.25, "prephase": rng.choice([None, None, "PS", "HP"])}
     if rng.random() < 0.4 and not ped:
         opts["samples"] = rng.sample(samples, rng.randint(1, len(samples)))
+        if rng.random() < 0.3:
+            # --ignore-read-groups: every read counts for each of the requested samples
+            opts["ignore_read_groups"] = True
     if rng.random() < 0.4 and p["n_chrom"] > 1:
         opts["chromosomes"] = rng.sample(names, rng.randint(1, p["n_chrom"] - 1))
     if p["with_pl"] and rng.random() < 0.6:
